@@ -944,10 +944,11 @@ impl<T: Storage> Raft<T> {
         let mci = self.mut_prs().maximal_committed_index().0;
         if self.r.raft_log.maybe_commit(mci, self.r.term) {
             let (self_id, committed) = (self.id, self.raft_log.committed);
-            self.mut_prs()
-                .get_mut(self_id)
-                .unwrap()
-                .update_committed(committed);
+            // The leader may have been removed from the configuration (it keeps
+            // leading until it steps down), in which case it has no progress.
+            if let Some(pr) = self.mut_prs().get_mut(self_id) {
+                pr.update_committed(committed);
+            }
             return true;
         }
         false
@@ -1078,8 +1079,13 @@ impl<T: Storage> Raft<T> {
                 );
             }
             let self_id = self.id;
-            let pr = self.mut_prs().get_mut(self_id).unwrap();
-            if pr.maybe_update(index) && self.maybe_commit() && self.should_bcast_commit() {
+            // A leader that has been removed from the configuration has no progress
+            // of its own; its persisted entries do not count towards any quorum.
+            let updated = self
+                .mut_prs()
+                .get_mut(self_id)
+                .is_some_and(|pr| pr.maybe_update(index));
+            if updated && self.maybe_commit() && self.should_bcast_commit() {
                 self.bcast_append();
             }
         }
